@@ -23,6 +23,41 @@ Theorem c06_nearest_independent_of_draw :
 Proof. exact nearest_full. Qed.
 Print Assumptions c06_nearest_independent_of_draw.
 
+(* ... hence the WHOLE vote of a cell at a node: every iteration is won by the leaf nearest on all
+   markers, its child gets every vote and no other child gets any.  At factor 1 the record
+   of a cell (winner, probability 1, no runner-up) is a function of the cell's own row and
+   the reference alone — not of the generator, the iteration count, or the other cells *)
+Theorem c06_factor_one_tally : forall q refs (n : nat) (subsets : list (list nat)),
+  Forall (sorted_draw n) subsets ->
+  tally q refs subsets =
+    match nearest q refs (seq 0 n) with
+    | Some w => Some (repeat w (length subsets))
+    | None => match subsets with [] => Some [] | _ => None end
+    end.
+Proof. exact factor_one_tally. Qed.
+Print Assumptions c06_factor_one_tally.
+
+Theorem c06_factor_one_unanimous : forall q refs (owners : list Z) (n : nat) subsets (w : nat) winners,
+  Forall (sorted_draw n) subsets ->
+  nearest q refs (seq 0 n) = Some w ->
+  tally q refs subsets = Some winners ->
+  winners = repeat w (length subsets) /\
+  votes_for owners winners (nth w owners (-1)) = length subsets /\
+  (forall c, c <> nth w owners (-1) -> votes_for owners winners c = 0%nat).
+Proof. exact factor_one_unanimous. Qed.
+Print Assumptions c06_factor_one_unanimous.
+
+Example c06_factor_one_example :
+  sorted_draw 4 [0; 1; 2; 3]%nat /\
+  tally [8; 0; 16; 24] [[0; 8; 0; 0]; [16; 0; 32; 50]; [8; 0; 16; 25]] [[0; 1; 2; 3]; [0; 1; 2; 3]; [0; 1; 2; 3]]%nat
+    = Some [1; 1; 1]%nat.
+Proof.
+  split.
+  - exists [0; 1; 2; 3]%nat. split; [vm_compute; reflexivity|]. split; [apply Permutation_refl|].
+    repeat (constructor; try (unfold lt; repeat constructor)).
+  - vm_compute. reflexivity.
+Qed.
+
 (* Whenever the decision taken for a cell at a parent (with >= 2 children) is a function
    dc of that cell alone — neither of the generator state nor of the other cells handed
    to the same call — the level-by-level routing of run_type_assignment (shared
